@@ -71,6 +71,9 @@ const (
 	SpUint64
 	SpAlgorithm  // cose.Algorithm (only meaningful for alg values)
 	NumSpellings = 10
+	// value positions only (never labels): a number the caller holds as big.Int / *big.Int
+	SpBigInt    uint8 = 20
+	SpBigIntPtr uint8 = 21
 )
 
 // Val is the harness' abstract CBOR value. Maps keep an explicit entry order.
@@ -83,7 +86,7 @@ type Val struct {
 	M   []KV   `json:"m,omitempty"`
 	T   uint64 `json:"t,omitempty"`
 	F   uint64 `json:"f,omitempty"`
-	Sp  uint8  `json:"sp,omitempty"` // Go spelling of integers
+	Sp  uint8  `json:"sp,omitempty"`  // Go spelling of integers
 	Nil bool   `json:"nil,omitempty"` // KBytes only: the caller holds a nil []byte (CBOR null on the wire)
 }
 
